@@ -293,8 +293,13 @@ func c09Scenario(id string, g c09Cfg, pattern, fault, nJobs, directed int, seed 
 		if err := pool.Schedule(func() { ranAfterClose.Add(1) }); err != worker.ErrWorkerPoolIsClosed {
 			c.Violationf("closed:wrong-error", rep, "Schedule on a closed pool returned %v", err)
 		}
-		if err := pool.ScheduleWithTimeout(func() { ranAfterClose.Add(1) }, time.Millisecond); err != worker.ErrWorkerPoolIsClosed {
-			c.Violationf("closed:wrong-error", rep, "ScheduleWithTimeout on a closed pool returned %v", err)
+		for _, to := range []time.Duration{time.Millisecond, 0, -time.Second} {
+			if err := pool.ScheduleWithTimeout(func() { ranAfterClose.Add(1) }, to); err != worker.ErrWorkerPoolIsClosed {
+				c.Violationf("closed:wrong-error", rep, "ScheduleWithTimeout(%v) on a closed pool returned %v", to, err)
+			}
+			if err := worker.NewDefaultInvokable[int](pool, func(int) { ranAfterClose.Add(1) }).InvokeWithTimeout(1, to); err != worker.ErrWorkerPoolIsClosed {
+				c.Violationf("closed:wrong-error", rep, "InvokeWithTimeout(%v) on a closed pool returned %v", to, err)
+			}
 		}
 		time.Sleep(300 * time.Microsecond)
 		if ranAfterClose.Load() != 0 {
@@ -350,6 +355,19 @@ func c09FullScenario(id string, qcap, qbuf int, seed int64) core.Scenario {
 			// the queue may have drained one slot only if the worker finished: it is gated, so it cannot
 			c.Violationf("full:wrong-timeout-error", rep, "ScheduleWithTimeout against a full queue returned %v, want ErrWorkerPoolScheduleTimeout", err)
 		}
+		// boundary timeouts ("do not wait") on the full queue, through both entry points: success must mean accepted
+		for k, to := range []time.Duration{0, -time.Millisecond, -time.Hour, time.Nanosecond} {
+			var e1, e2 error
+			e1 = pool.ScheduleWithTimeout(func() { ran.Add(1) }, to)
+			e2 = worker.NewDefaultInvokable[int](pool, func(int) { ran.Add(1) }).InvokeWithTimeout(k, to)
+			for _, err := range []error{e1, e2} {
+				if err == nil {
+					acc++ // reported success: the job must run exactly once (checked below through the total)
+				} else if err != worker.ErrWorkerPoolScheduleTimeout && err != worker.ErrWorkerPoolJobQueueIsFull {
+					c.Violationf("full:wrong-timeout-error", rep, "ScheduleWithTimeout / InvokeWithTimeout(timeout %v) against a full queue returned %v", to, err)
+				}
+			}
+		}
 		// a pool that keeps its job queue open on Close must still refuse new jobs
 		{
 			q2 := fpgo.NewBufferedChannelQueue[func()](2, 2, 4)
@@ -359,6 +377,14 @@ func c09FullScenario(id string, qcap, qbuf int, seed int64) core.Scenario {
 			var ran2 atomic.Int32
 			if err := p2.Schedule(func() { ran2.Add(1) }); err != worker.ErrWorkerPoolIsClosed {
 				c.Violationf("closed:wrong-error", rep, "Schedule on a closed pool (job queue kept open) returned %v", err)
+			}
+			for _, to := range []time.Duration{0, -time.Millisecond, time.Millisecond} {
+				if err := p2.ScheduleWithTimeout(func() { ran2.Add(1) }, to); err != worker.ErrWorkerPoolIsClosed {
+					c.Violationf("closed:wrong-error", rep, "ScheduleWithTimeout(%v) on a closed pool (job queue kept open) returned %v", to, err)
+				}
+				if err := worker.NewDefaultInvokable[int](p2, func(int) { ran2.Add(1) }).InvokeWithTimeout(1, to); err != worker.ErrWorkerPoolIsClosed {
+					c.Violationf("closed:wrong-error", rep, "InvokeWithTimeout(%v) on a closed pool (job queue kept open) returned %v", to, err)
+				}
 			}
 			time.Sleep(time.Millisecond)
 			if ran2.Load() != 0 {
